@@ -92,9 +92,10 @@ end
 section
 variable {K : Type} [Field K] [LinearOrder K] [IsStrictOrderedRing K]
 
+set_option hygiene false in
 macro "unfold_sem" : tactic => `(tactic|
-  simp [specValue, sem, semProd, expandAtoms, expandFn, semSimple, List.filter, isSmooth, applySmooth,
-    tmul, Term.tmul, smul, Term.smul, two_eq, Term.L, pw, ofN, expWeight, Term.expWeight])
+  simp [specValue, sem, semProd, expandAtoms, expandFn, semSimple, List.filterMap, deltaSel, stepSel, offSel, List.filter, isSmooth, applySmooth,
+    tmul, Term.tmul, smul, Term.smul, two_eq, Term.L, pw, ofN, expWeight, Term.expWeight, le_of_lt ha])
 
 set_option hygiene false in
 macro "fin_sem" : tactic => `(tactic|
@@ -134,14 +135,14 @@ theorem const_entry' (env : Env K) (hE : IsExp env.E) (c : K) :
     specValue env (.prod c []) = some (c / env.s) := by
   constructor
   · simp [lcapyTerm, normAtoms]
-  · simp [specValue, sem, semProd, expandAtoms, semSimple, Term.L, pw, hE.zero]
+  · simp [specValue, sem, semProd, expandAtoms, semSimple, List.filterMap, deltaSel, stepSel, offSel, Term.L, pw, hE.zero]
 
 theorem exp_entry' (env : Env K) (hE : IsExp env.E) (c a : K) (ha : a ≠ 0) :
     lcapyTerm env (.prod c [.exp a]) = (.exp, some (c / (env.s - a))) ∧
     specValue env (.prod c [.exp a]) = some (c / (env.s - a)) := by
   constructor
   · simp [lcapyTerm, normAtoms, ha]
-  · simp [specValue, sem, semProd, expandAtoms, semSimple, List.filter, isSmooth, applySmooth, expWeight,
+  · simp [specValue, sem, semProd, expandAtoms, semSimple, List.filterMap, deltaSel, stepSel, offSel, List.filter, isSmooth, applySmooth, expWeight,
       Term.expWeight, Term.L, pw, hE.zero]
 
 theorem sin_cos_entry' (env : Env K) (hE : IsExp env.E) (hJ : env.J * env.J = -1) (c al w ph tau : K) (isCos : Bool)
@@ -152,14 +153,14 @@ theorem sin_cos_entry' (env : Env K) (hE : IsExp env.E) (hJ : env.J * env.J = -1
   cases isCos
   · have key := sin_core env.E hE env.J hJ h20 env.s c al w ph (if 0 ≤ tau then tau else 0) h1 h2
     simp only at key
-    simp only [specValue, sem, semProd, expandAtoms, semSimple, List.filter, isSmooth, applySmooth,
+    simp only [specValue, sem, semProd, expandAtoms, semSimple, List.filterMap, deltaSel, stepSel, offSel, List.filter, isSmooth, applySmooth,
       List.map, List.foldl, List.filterMap, sinCosFormula, two_eq, Option.map]
     simp
     rw [key]
     split_ifs <;> simp
   · have key := cos_core env.E hE env.J hJ h20 env.s c al w ph (if 0 ≤ tau then tau else 0) h1 h2
     simp only at key
-    simp only [specValue, sem, semProd, expandAtoms, semSimple, List.filter, isSmooth, applySmooth,
+    simp only [specValue, sem, semProd, expandAtoms, semSimple, List.filterMap, deltaSel, stepSel, offSel, List.filter, isSmooth, applySmooth,
       List.map, List.foldl, List.filterMap, sinCosFormula, two_eq, Option.map]
     simp
     rw [key]
